@@ -105,7 +105,7 @@ func debOutcome(raw []byte, eager bool) (string, error) {
 			if d != nil {
 				return errf("Load returned an error AND a *Deb")
 			}
-			out = "error"
+			out = "error: " + err.Error()
 			return nil
 		}
 		defer d.Close()
@@ -157,8 +157,30 @@ type BytesCase struct {
 	Eager bool   `json:"eager,omitempty"` // read through a ReaderAt that reports EOF together with the last bytes
 }
 
+// arEnd runs the Next() loop once more and reports how it ended.
+func arEnd(raw []byte) string {
+	ar, err := deb.LoadAr(bytes.NewReader(raw))
+	if err != nil {
+		return "LoadAr: " + err.Error()
+	}
+	for i := 0; i <= stepBound(len(raw)); i++ {
+		if _, err := ar.Next(); err != nil {
+			return fmt.Sprintf("member %d: %v", i, err)
+		}
+	}
+	return "no end"
+}
+
 func checkBytesCase(c BytesCase, r *Recorder) error {
 	members, err := checkArBytes(c.Raw, c.Eager)
+	if err == nil {
+		first := arEnd(c.Raw)
+		for k := 0; k < 6; k++ {
+			if again := arEnd(c.Raw); again != first {
+				return errf("[%s] iterating the same bytes again ends differently: %q vs %q", c.Note, first, again)
+			}
+		}
+	}
 	nt := members > 0 || (len(c.Raw) >= 68 && string(c.Raw[:8]) == arMagic)
 	r.Case(string(c.Raw), nt, "note:"+c.Note)
 	if nt {
@@ -225,7 +247,7 @@ func genCorruptArchive(t *rapid.T) BytesCase {
 			ms = append(ms, genArMember(t, "m"))
 		}
 	}
-	op := rapid.SampledFrom([]string{"column", "column", "column", "magic", "truncate", "duplicate", "reorder", "decoy", "padding", "globalmagic", "none"}).Draw(t, "op")
+	op := rapid.SampledFrom([]string{"column", "column", "column", "columns", "magic", "truncate", "duplicate", "reorder", "decoy", "padding", "globalmagic", "none"}).Draw(t, "op")
 	note := op
 	switch op {
 	case "duplicate":
@@ -263,6 +285,18 @@ func genCorruptArchive(t *rapid.T) BytesCase {
 		}
 		copy(raw[offs[i]+col.off:offs[i]+col.off+col.len], []byte(padRight(txt, col.len)))
 		note = "column:" + col.name + "=" + txt
+	case "columns":
+		// several columns of one header are bad at once: which complaint comes first must not
+		// be a matter of chance
+		i := rapid.IntRange(0, len(ms)-1).Draw(t, "i")
+		k := rapid.IntRange(2, 4).Draw(t, "ncols")
+		note = "columns:"
+		for _, ci := range rapid.Permutation([]int{1, 2, 3, 5}).Draw(t, "cols")[:k] {
+			col := arColumns[ci]
+			txt := rapid.SampledFrom([]string{"abc", "x", "1e3", "0x10", "12 34", "tt", "--"}).Draw(t, "txts")
+			copy(raw[offs[i]+col.off:offs[i]+col.off+col.len], []byte(padRight(txt, col.len)))
+			note += col.name + "=" + txt + ","
+		}
 	case "magic":
 		i := rapid.IntRange(0, len(ms)-1).Draw(t, "i")
 		which := rapid.IntRange(0, 2).Draw(t, "which")
@@ -294,7 +328,7 @@ func genCorruptArchive(t *rapid.T) BytesCase {
 
 var specC15Corrupt = Register(&Spec[BytesCase]{
 	Prop: "C15", Name: "corrupt",
-	Rule: "structured corruption of valid artefacts (C13 archives and C14 packages with stored/gzip members): one header column (name, mtime, uid, gid, mode, size, magic) of one member overwritten with negative, '+'-signed, huge, blank, non-numeric, NUL, hex or overflowing text; one or both header magic bytes changed; truncation at a generated offset; a member duplicated (same or changed content), members reordered, a decoy control.*/data.* member with another extension (optionally a tar with 'Package: evil') inserted; a padding byte added or removed; a global magic byte flipped. Oracle: no panic; the Next() loop ends in io.EOF or an error within len/60+2 steps; every returned member sits behind a header ending 0x60 0x0A, has Size >= 0 and a reader delivering exactly Size bytes; deb.Load stays within a read budget and returns within 20 s; seven loads of the same bytes give the same outcome (error-or-not, extensions, control identity, member index). Non-trivial: >= 1 member returned or a first header parsed; distinct by bytes.",
+	Rule: "structured corruption of valid artefacts (C13 archives and C14 packages with stored/gzip members): one header column (name, mtime, uid, gid, mode, size, magic) of one member overwritten with negative, '+'-signed, huge, blank, non-numeric, NUL, hex or overflowing text; 2..4 numeric columns of one header made non-numeric at once; one or both header magic bytes changed; truncation at a generated offset; a member duplicated (same or changed content), members reordered, a decoy control.*/data.* member with another extension (optionally a tar with 'Package: evil') inserted; a padding byte added or removed; a global magic byte flipped. Oracle: no panic; the Next() loop ends in io.EOF or an error within len/60+2 steps; every returned member sits behind a header ending 0x60 0x0A, has Size >= 0 and a reader delivering exactly Size bytes; deb.Load stays within a read budget and returns within 20 s; seven iterations / loads of the same bytes give the same outcome (the same error text, or the same extensions, control identity and member index). Non-trivial: >= 1 member returned or a first header parsed; distinct by bytes.",
 	Check: checkBytesCase,
 })
 
